@@ -224,6 +224,9 @@ package kafka
 //@   requires batch != nil
 //@   option noframe
 //@   modifies b.queue, b.closed, capacity(b.queue)
+//@   ensures result ==> len(b.queue) == atlock(len(b.queue)) + 1 && b.queue[len(b.queue) - 1] == batch
+//@   ensures result ==> (forall i :: 0 <= i && i < atlock(len(b.queue)) ==> b.queue[i] == atlock(b.queue[i]))
+//@   ensures !result ==> atlock(b.closed)
 //@ func (*batchQueue).Close
 //@   option noframe
 //@   modifies b.closed
